@@ -2811,7 +2811,7 @@ def generate_signatures(repo):
 #           | for x in e: .. | for a, b in e: .. | for i, x in enumerate(e): ..   (-> py_for over the items, state = the variables assigned)
 #           | try: e.m(..) except <VoteError>: ..   (-> a test of the exception constructor against the subclasses of VoteError in vote.py)
 #    e ::= int | name | self.a | self.m(..) | super().m(..) | e.m(..) for a translated class | d.get(k, e) | e[i] | e + e | e - e
-#        | len(e) | sum(g) | frozenset(g) | bool(e) | isinstance(e, T) | not e | e and e | e or e (short circuit kept when an operand may raise)
+#        | len(e) | sum(g) | frozenset(g) | bool(e) | any(bounds) | round(e, k) | isinstance(e, T) | not e | e and e | e or e (short circuit kept when an operand may raise)
 #        | e (<|<=|>|>=|==|!=) e | e is [not] None | e [not] in l | e.candidacy_for (boolean context)
 #    g ::= e for x in e          isinstance(e, T): T a class of candidate.py, str, frozenset, tuple, list, collections.abc.Set|Sequence, or a
 #    tuple of these -> a test of the constructor of the object, the candidate kinds (str, Person, PoliticalParty, Coalition, blank
@@ -3104,6 +3104,15 @@ class VX:
                 return self.truthy(n.args[0], env), 'bool'
             if f.id == 'set' and not n.args:
                 return '([] : list pyobj)', 'set'
+            if f.id == 'any' and len(n.args) == 1:
+                v, t = self.ex(n.args[0], env)
+                if t == 'optpair':
+                    return '(orb (py_truthy_optnum (fst %s)) (py_truthy_optnum (snd %s)))' % (v, v), 'bool'
+                die(n, 'any of %s' % (t,))
+            if f.id == 'round' and len(n.args) == 2 and isinstance(n.args[1], ast.Constant) and isinstance(n.args[1].value, int) \
+                    and not isinstance(n.args[1].value, bool) and n.args[1].value >= 0:
+                v, t = self.ex(n.args[0], env)
+                return self.hoist('(py_round %s (%d)%%Z)' % (self.coerce(v, t, 'obj', n), n.args[1].value)), 'obj'
             die(n, 'call of %s' % f.id)
         if isinstance(n, ast.List) and not n.elts:
             return '([] : list pyobj)', 'list'
@@ -3442,7 +3451,10 @@ class VX:
             if len(stored.get(d, [])) != 1 or not isinstance(stored[d][0][1], ast.Attribute):
                 raise Unsupported('%s.%s is not set once' % (cname, d))
             self.ret = 'bool'
-            (t, ty), hs = self.scoped(lambda: self.ex(stored[d][0][0].value, env0))
+            envd = dict(env0)
+            if cname == 'VoteMagnitudeChecker':      # the constructor argument that check_fields saw unpacked into the two attributes
+                envd['bounds'] = ('(min_value, max_value)', 'optpair')
+            (t, ty), hs = self.scoped(lambda: self.ex(stored[d][0][0].value, envd))
             if hs or ty != 'bool':
                 raise Unsupported('%s.%s is not a plain boolean' % (cname, d))
             out.append('Definition %s_%s %s : bool :=\n  %s.' % (cname, d, fparams, t))
